@@ -112,3 +112,31 @@ Theorem C13_multi_streams_conform : forall strict n ls m i,
   gc_run (proj i (mh_c m)) <> GcBad /\ gs_run (proj i (mh_s m)) <> GsBad /\ count_close (proj i (mh_s m)) <= 1.
 Proof. exact multi_streams_conform. Qed.
 Print Assumptions C13_multi_streams_conform.
+
+(* code shape behind the per-RPC model, regenerated from the source on every run (theories/SkelRpc.v) *)
+From Coq Require Import String.
+From GT Require Import SkelRpc.
+From GTgen Require Import Params.
+Local Open Scope string_scope.
+Theorem C13_client_SendMsg_refuses_after_half_close : gskel_tunnelClientStream_SendMsg =
+  ["call writeMu.Lock"; "defer call writeMu.Unlock"; "if halfClosed"; "return"; "fi";
+   "if !isClientStream && numSent == 1"; "return"; "fi"; "set numSent"; "return"; "return";
+   "call sender.send"; "call loadDone"; "return"; "return"; "return"].
+Proof. exact tunnelClientStream_SendMsg_shape. Qed.
+Print Assumptions C13_client_SendMsg_refuses_after_half_close.
+Theorem C13_client_CloseSend_shape : gskel_tunnelClientStream_CloseSend =
+  ["call writeMu.Lock"; "defer call writeMu.Unlock"; "select"; "recv doneSignal"; "call loadDone"; "return"; "end";
+   "if halfClosed"; "return"; "fi"; "set halfClosed"; "call stream.Send"; "return"].
+Proof. exact tunnelClientStream_CloseSend_shape. Qed.
+Print Assumptions C13_client_CloseSend_shape.
+Theorem C13_server_SendMsg_shape : gskel_tunnelServerStream_SendMsg =
+  ["call writeMu.Lock"; "defer call writeMu.Unlock"; "if closed"; "call ctx.Err"; "return"; "return"; "fi";
+   "if !sentHeaders"; "call sendHeadersLocked"; "return"; "fi";
+   "if !isServerStream && numSent == 1"; "return"; "fi"; "set numSent"; "return"; "return"; "call sender.send"; "return"].
+Proof. exact tunnelServerStream_SendMsg_shape. Qed.
+Print Assumptions C13_server_SendMsg_shape.
+Theorem C13_server_setHeader_shape : gskel_tunnelServerStream_setHeader =
+  ["call writeMu.Lock"; "defer call writeMu.Unlock"; "if sentHeaders"; "return"; "fi"; "set headers";
+   "call sendHeadersLocked"; "return"; "return"].
+Proof. exact tunnelServerStream_setHeader_shape. Qed.
+Print Assumptions C13_server_setHeader_shape.
